@@ -47,15 +47,65 @@ fn render(lines: &[(String, &'static str)], last_unterminated: bool) -> Vec<u8> 
     out
 }
 
+/// A character whose UTF-8 encoding has the same length as that of `c` and differs from it in exactly ONE
+/// byte (the lead byte or one of the continuation bytes): the two encodings share a byte prefix and / or
+/// a byte suffix although the characters differ.  Falls back to another character of the same length.
+pub fn sibling_char(rng: &mut Rng, c: char) -> char {
+    let mut buf = [0u8; 4];
+    let len = c.encode_utf8(&mut buf).len();
+    for _ in 0..16 {
+        let mut b = buf;
+        let j = rng.below(len);
+        let delta = 1 + rng.below(3) as u8;
+        b[j] = if rng.chance(1, 2) { b[j].wrapping_add(delta) } else { b[j].wrapping_sub(delta) };
+        if let Ok(t) = std::str::from_utf8(&b[..len]) {
+            let d = t.chars().next().unwrap();
+            if d != c && d.len_utf8() == len && d != '\n' && d != '\r' {
+                return d;
+            }
+        }
+    }
+    match len {
+        1 => if c == 'x' { 'y' } else { 'x' },
+        2 => if c == 'é' { 'è' } else { 'é' },
+        3 => if c == '日' { '本' } else { '日' },
+        _ => if c == '😀' { '😃' } else { '😀' },
+    }
+}
+
+/// a scalar value drawn from the whole range of Unicode blocks (not from a fixed palette)
+pub fn any_char(rng: &mut Rng) -> char {
+    loop {
+        let v = match rng.below(6) {
+            0 => 0x20 + rng.below(0x5f) as u32,
+            1 => 0xa0 + rng.below(0x760) as u32,
+            2 => 0x800 + rng.below(0xf800) as u32,
+            3 => 0x1_0000 + rng.below(0x1_0000) as u32,
+            4 => 0x1_f300 + rng.below(0x400) as u32,
+            _ => rng.below(0x11_0000) as u32,
+        };
+        if let Some(c) = char::from_u32(v) {
+            if c != '\n' && c != '\r' {
+                return c;
+            }
+        }
+    }
+}
+
 fn edit_words(rng: &mut Rng, body: &str) -> String {
-    // word-level edit inside a line: replace / drop / insert one atom
+    // word-level edit inside a line: replace / drop / insert one atom, or substitute ONE character
     let chars: Vec<char> = body.chars().collect();
     if chars.is_empty() {
         return (*rng.pick(&WORD_ATOMS)).to_string();
     }
     let at = rng.below(chars.len() + 1);
     let mut s: String = chars[..at].iter().collect();
-    match rng.below(3) {
+    match rng.below(5) {
+        3 | 4 if at < chars.len() && chars[at] != '\n' && chars[at] != '\r' => {
+            // one character replaced by a sibling (encodings share a byte prefix / suffix) or by any scalar value
+            s.push(if rng.chance(2, 3) { sibling_char(rng, chars[at]) } else { any_char(rng) });
+            s.extend(chars[at + 1..].iter());
+        }
         0 => {
             s.push_str(*rng.pick(&WORD_ATOMS));
             s.extend(chars[at..].iter());
@@ -167,7 +217,7 @@ pub fn inline_pair(rng: &mut Rng, max_lines: usize) -> (String, String) {
             if w > 0 {
                 s.push_str(if rng.chance(5, 6) { " " } else { *rng.pick(&WS_ATOMS) });
             }
-            s.push_str(*rng.pick(&["alpha", "beta", "gamma", "delta", "é", "日本", "x", "foo_bar", "e\u{301}", "🇩🇪", "1", "22"]));
+            s.push_str(*rng.pick(&["alpha", "beta", "gamma", "delta", "é", "日本", "x", "foo_bar", "e\u{301}", "🇩🇪", "1", "22", "kelime:", "baş", "größe", "naïve", "日本語", "😀😃", "čaj"]));
         }
         la.push((s, *rng.pick(&TERMINATORS)));
     }
